@@ -30,7 +30,10 @@ def seed_eval(patch, props=None):
             if rr.returncode == 2:
                 results[p]["error"] = rr.stdout[-400:]
     finally:
-        subprocess.run(["git", "-C", repo, "checkout", "--", "."], check=False)
+        # reverse-apply (removes the files the patch added too: /repo's .gitignore hides new files under src/store from git)
+        u = subprocess.run(["git", "-C", repo, "apply", "-R", patch], stdout=subprocess.PIPE, stderr=subprocess.STDOUT, text=True)
+        if u.returncode != 0:
+            subprocess.run(["git", "-C", repo, "checkout", "--", "."], check=False)
         lock.close()
     return 0, results
 
